@@ -28,4 +28,5 @@ except SystemExit as e:
     s = "EXC SystemExit: %r" % (e.code,)
 except BaseException as e:
     s = "EXC %s: %s" % (type(e).__name__, str(e)[:300])
-sys.stdout.write("REPORT\n" + "\n".join(l for l in s.split("\n") if not l.startswith("Timestamp:")))
+s = "\n".join(l for l in s.split("\n") if not l.startswith("Timestamp:"))
+sys.stdout.write("REPORT\n" + s.replace(root, "<root>"))
